@@ -1110,6 +1110,53 @@ def subKeys (v : Option JV) : List String :=
   | some (.obj fs) => keyNames fs
   | _ => []
 
+/-! ### rlwe.Scale: the text of `DefaultScale` inside the parameter encodings
+
+  `Scale.MarshalJSON` writes `Value` and `Mod` as `big.Float.Text('e', 39)` (40 significant digits) of 128-bit floats;
+  `UnmarshalJSON` parses `Value` into a 128-bit `big.Float` and `Mod` into a `big.Float` of the default precision 64, then
+  takes its integer part. For INTEGER scales and moduli below `10^40` the text holds every digit, so the codec is:
+  exact decimal text, then rounding to the decoder's mantissa width. (Non-integer scales: probes only.) -/
+
+/-- round `n` to `p` significant bits, ties to even: what parsing an exact decimal integer into a `p`-bit float gives -/
+def roundMant (p n : Nat) : Nat :=
+  let b := len64' n
+  if b ≤ p then n
+  else
+    let sh := b - p
+    let q := n / 2 ^ sh
+    let r := n % 2 ^ sh
+    let half := 2 ^ (sh - 1)
+    let q' := if r > half || (r == half && q % 2 == 1) then q + 1 else q
+    q' * 2 ^ sh
+where
+  /-- bit length of an arbitrary natural number -/
+  len64' (n : Nat) : Nat := if n = 0 then 0 else Nat.log2 n + 1
+
+/-- `Text('e', 39)` of a natural number below `10^40`: `d.ddd…d` with 39 digits after the point, `e+XX` -/
+def sciText (n : Nat) : String :=
+  let zeros (k : Nat) : String := String.ofList (List.replicate k '0')
+  if n = 0 then "0." ++ zeros 39 ++ "e+00"
+  else
+    let ds := (Nat.toDigits 10 n)
+    let e := ds.length - 1
+    let frac := (ds.drop 1).take 39
+    String.ofList (ds.take 1) ++ "." ++ String.ofList frac ++ zeros (39 - frac.length) ++
+      "e+" ++ (if e < 10 then "0" else "") ++ toString e
+
+/-- an integer `rlwe.Scale`: `Value` and `Mod` (`none` = nil) -/
+structure ScaleInt where
+  value : Nat
+  mod : Option Nat
+  deriving DecidableEq, Repr
+
+/-- the two numbers `Scale.MarshalJSON` writes (exactly, for numbers below `10^40`); a nil `Mod` is written as 0 -/
+def encodeScaleInt (s : ScaleInt) : Nat × Nat := (s.value, s.mod.getD 0)
+
+/-- `Scale.UnmarshalJSON` with mantissa widths `pv` for `Value` (128 in the code) and `pm` for `Mod` (64 in the code:
+    `new(big.Float).SetString`); a zero `Mod` is nil -/
+def decodeScaleInt (pv pm : Nat) (t : Nat × Nat) : ScaleInt :=
+  { value := roundMant pv t.1, mod := if roundMant pm t.2 = 0 then none else some (roundMant pm t.2) }
+
 /-! ### the literal of an accepted object (`Parameters.ParametersLiteral()`), for the re-validation theorem -/
 
 def Accepted.literal (a : Accepted) : Literal :=
